@@ -1094,10 +1094,12 @@ Notes:
         else: disp = False
 
         # register: cost, termination, ExtraArgs
-        cost = self._bootstrap_objective(cost, ExtraArgs)
+        if cost is not None or ExtraArgs is not None:
+            cost = self._bootstrap_objective(cost, ExtraArgs)
         if termination is not None: self.SetTermination(termination)
 
-        # check termination before 'stepping'
+        # check termination before 'stepping' (and before re-decorating the
+        # objective, as that can reset the simplex/population of a stopped run)
         if len(self._stepmon):
             msg = self.Terminated(disp=disp, info=True) or None
             if msg: self.Finalize() # then cleanup/finalize
@@ -1105,6 +1107,7 @@ Notes:
 
         # if not terminated, then take a step
         if msg is None:
+            cost = self._bootstrap_objective(cost, ExtraArgs)
             self._Step(**kwds) #FIXME: not all kwds are given in __doc__
             if self.Terminated(): # then cleanup/finalize
                 self.Finalize()
